@@ -48,4 +48,9 @@ theorem debugdir_chain_shape : GV.Gen.debugDirChainShape.toList =
     "if entries, err := os.ReadDir(flagDebugDir); errors.Is(err, fs.ErrNotExist) { } else if err == nil && len(entries) == 0 { } else if _, err := os.Lstat(sentinel); err == nil { if err := os.RemoveAll(flagDebugDir); err != nil { return nil, fmt.Errorf(\"could not empty debugdir: %v\", err) } } else { return nil, fmt.Errorf(\"debugdir %q has unknown contents; empty it first\", origDir) }".toList := by
   rfl
 
+/-- the ownership marker is written together with the directory, before any build step runs: a build that is
+interrupted later leaves a directory the next run recognises as its own -/
+theorem debugdir_marker_written_at_setup :
+    GV.Gen.debugDirSetupSteps = ["ReadDir", "RemoveAll", "MkdirAll", "WriteFile"] := by decide
+
 end GV.Props.C19
